@@ -212,6 +212,32 @@ func TestRAC_C02(t *testing.T) {
 			checkProve(res, w, h, permuted(sub, rng))
 		}
 	}
+	// a forest with seventeen trees (2^17-1 leaves): one leaf out of every tree, in descending and in ascending tree
+	// order, and a request with several leaves per tree
+	{
+		big := racHistory{{Adds: 1<<17 - 1}}
+		if w, ok := replayHistory(res, big, []mapCfg{{Full: true, TotalRows: 63}, {Full: true, TotalRows: 0}}, false); ok {
+			var perTree, many []Hash
+			start := 0
+			for size := 1 << 16; size >= 1; size >>= 1 {
+				perTree = append(perTree, racLeaf(start+size-1))
+				many = append(many, racLeaf(start))
+				if size > 2 {
+					many = append(many, racLeaf(start+size/2), racLeaf(start+size-1))
+				}
+				start += size
+			}
+			n++
+			res.seen("big/17-trees")
+			checkProve(res, w, big, perTree)
+			rev := append([]Hash(nil), perTree...)
+			for i, j := 0, len(rev)-1; i < j; i, j = i+1, j-1 {
+				rev[i], rev[j] = rev[j], rev[i]
+			}
+			checkProve(res, w, big, rev)
+			checkProve(res, w, big, many)
+		}
+	}
 	// light forests that remember only some leaves (and forget some again): every remembered leaf provable with the
 	// canonical proof after every block, Verify(remember) / Ingest and Prune (the C09 representation invariant)
 	npart := 60
@@ -219,7 +245,7 @@ func TestRAC_C02(t *testing.T) {
 		npart = 800
 	}
 	runLongLivedClients(res, rng, npart, []uint8{0, 3, 63}, false)
-	res.Rule = fmt.Sprintf("(+"+fmt.Sprint(npart)+" seeded long-lived light clients remembering only some leaves: clause MapPollard.partial.rac.provable) "+"every reachable state of histories with <= %d leaves / <= %d blocks; every non-empty subset of live leaves in ascending order and in one seeded permutation; plus %d seeded random histories with seeded subsets; provers: Pollard, MapPollard %v; verifiers: Verify, Pollard.Verify, MapPollard.Verify; oracle: specForest.CanonProof. distinct = distinct (state, request) pairs", maxLeaves, maxBlocks, nr, cfgs)
+	res.Rule = fmt.Sprintf("(+"+fmt.Sprint(npart)+" seeded long-lived light clients remembering only some leaves: clause MapPollard.partial.rac.provable; + a forest of 2^17-1 leaves (17 trees) with requests that touch every tree) "+"every reachable state of histories with <= %d leaves / <= %d blocks; every non-empty subset of live leaves in ascending order and in one seeded permutation; plus %d seeded random histories with seeded subsets; provers: Pollard, MapPollard %v; verifiers: Verify, Pollard.Verify, MapPollard.Verify; oracle: specForest.CanonProof. distinct = distinct (state, request) pairs", maxLeaves, maxBlocks, nr, cfgs)
 	res.Scope = fmt.Sprintf("states=%d", n)
 	res.write(t)
 }
